@@ -100,6 +100,12 @@ CLAIMED['C14'] = dict(
    note="Opaque environment recorded by ghost counters; decode_suback and the tuple accessors are stubs handing out ghost objects.",
    design='5 C14')
 
+CLAIMED['C04'] = dict(
+   category='proof',
+   text="FRAGMENT, proved on every continuation of publish_rec_op (inbound PUBLISH): QoS bits 3 -> malformed DISCONNECT (0x81), nothing stored or sent; QoS 0 -> stored at once, no acknowledgement; QoS 1 -> PUBACK built by encode_puback with the same packet id, message stored only after that write succeeded; QoS 2 -> PUBREC with the same id, then a wait for (PUBREL, id); PUBCOMP (encode_pubcomp, same id) only after a decodable PUBREL with an admitted reason code, every such PUBREL is answered, otherwise malformed-disconnect and wait again; message stored only after the PUBCOMP write succeeded, try_again waits for the retransmitted PUBREL without storing (never PUBCOMP before PUBREL, QoS 2 stored once per exchange). BOUNDED (3 waiters quick / 5 thorough): replies::dispatch completes only the first waiter matching (code, id) with exactly the reply, stores an unmatched reply instead of delivering it; clear_pending_pubrels aborts exactly the PUBREL waiters once each and keeps the others. NOT decided: order of deliveries, at-least-once across drops, duplicate-waiter replacement in async_wait_reply (not built), channel capacity behaviour.",
+   note="Assumed: decode_publish yields a packet id exactly for QoS > 0; control_packet::of stores the id it is given; Asio adapters (prepend/consign) do not modify their arguments.",
+   design='5 C04')
+
 NOT_APPLICABLE = {
  'C02': "liveness under fairness over unbounded fault sequences ('eventually completes once the broker stays reachable'): a function contract cannot state 'eventually', and there is no CBMC model of Boost.Asio scheduling; its function-local safety crumbs are carried under C03/C05 (DESIGN 5 C02)",
 }
